@@ -2,7 +2,7 @@
 # mutrun.sh <repo-with-mutation> <prop>... : run the quick checks of a scratch COPY of /verif against a
 # mutated source tree (dev tool for evaluating seeded changes without touching /repo or /verif/coq)
 repo=$1; shift
-copy=/tmp/verif-mut-copy
+copy=${COPY:-/tmp/verif-mut-copy}
 mkdir -p $copy
 rsync -a --delete --exclude .git --exclude replays --exclude evidence /verif/ $copy/
 mkdir -p $copy/replays $copy/evidence
